@@ -296,8 +296,14 @@ def body_e2e(ctx, case):
     letters = CHARS[:-1] + [BLANK_SYMBOL]
     for name, dec in (("greedy", GreedyDecoder(letters)), ("beam", CTCPrefixLogRawNumpyDecoder(letters, case["k"]))):
         a, b = copy.deepcopy(pl), copy.deepcopy(p2)
-        PageDecoder(dec).process_page(a)
-        PageDecoder(dec).process_page(b)
+        from checks.c08_history import catching_errors
+        with catching_errors() as errs:
+            PageDecoder(dec).process_page(a)
+            PageDecoder(dec).process_page(b)
+        # the comparison below would be vacuous if decoding failed on both sides (process_page only logs line failures)
+        n_empty = sum(1 for l in pl.lines_iterator() if l.logits.shape[0] == 0)       # nothing to decode: the decoders reject zero frames
+        ctx.check(len(errs.records) == 2 * n_empty, "line_not_decodable_from_its_logits",
+                  lambda: "%s: %d lines without frames, errors %r; " % (name, n_empty, errs.records[:2]) + desc())
         ta = [(l.id, l.transcription) for l in a.lines_iterator()]
         tb = [(l.id, l.transcription) for l in b.lines_iterator()]
         ctx.check(ta == tb, "redecoding_differs_after_reload", lambda: "%s: original %r reloaded %r; " % (name, ta, tb) + desc())
